@@ -140,6 +140,11 @@ size_t g_inner_then; const void *g_inner_chain, *g_inner_weak;
 #define vs_inner_then(p, ch, lam) vs_inner_then_(p, ch, lam)
 #define vs_inner_then_(p, ch, fn, cl) ((void)(p), (void)(fn), (void)(g_inner_then++), (void)(g_inner_chain = (ch)->chainCore), (void)(g_inner_weak = (cl)->weakPtr))
 /* std::weak_ptr<Core>: the pointer while the core lives, null once it is gone; lock() hands it out */
+/* When<Policy>::when: promise.then(continuation, handler) and Promise<T>::resolved(value) seen from the combinator */
+struct vs_whencont { const void *data; };
+size_t g_then_calls, g_resolved_calls; int g_then_state, g_resolved_val; const void *g_then_cont_data, *g_then_lam_data, *g_then_promise;
+#define vs_when_then(p, cont, lam) vs_when_then_(p, cont, lam)
+#define vs_when_then_(p, cont, fn, cl) ((void)(fn), (void)(g_then_calls++), (void)(g_then_promise = (p)), (void)(g_then_state = (p)->core_->state), (void)(g_then_cont_data = (cont).data), (void)(g_then_lam_data = (cl)->data))
 /* then(): the new continuation object (make_shared<Continuation>): known by the index it will have in the vector */
 size_t g_new_req; size_t g_pushed;
 static inline size_t vs_new_req(void) { return g_new_req; }
@@ -148,6 +153,16 @@ static inline void vs_req_push(struct vs_reqvec *v, size_t req)
     __CPROVER_assert(req == g_new_req, "C11: then() remembers the continuation it created");
     if (v->n < REQ_MAX + 2) v->n++;
     if (g_pushed < 4) g_pushed++;
+}
+/* Promise<T>::resolved(value) (listed for reference, not under contract here): a promise that is already fulfilled with the value */
+static inline struct Pistache_Async_Promise_int_ vs_promise_resolved(int *v)
+{
+    struct Pistache_Async_Promise_int_ p;
+    if (g_resolved_calls < 4) g_resolved_calls++;
+    g_resolved_val = *v;
+    p.core_ = vs_new_core(); p.core_->state = ST_FULFILLED; p.core_->allocated = 1;
+    p.resolver_.core_ = p.core_; p.rejection_.core_ = p.core_;
+    return p;
 }
 /* Request::resolve(core) / Request::reject(core) of attached continuation number `req` */
 static inline void vs_req_resolve(size_t req, struct Pistache_Async_Private_Core *const *core)
@@ -585,6 +600,32 @@ PROOFS = [
     {'name': 'Any_reject', 'enforce': 'Pistache_Async_Impl_Any_reject', 'replace': ['Rejection_call_eptr'], 'props': ['C11']},
 ]
 
+
+# ---- the variadic combinators: how an argument is attached (When<All>::when, both overloads)
+WC1 = 'struct vs_whencont'
+T_WHEN = {'types': dict(T_ALL['types'], **{'WhenContinuation<int, 1UL, std::shared_ptr<Data>>': WC1, 'WhenContinuation<int, 0UL, std::shared_ptr<Data>>': WC1,
+                                           'Pistache::Async::Impl::When<Pistache::Async::Impl::All>::WhenContinuation<int, 1, std::shared_ptr<Data>>': WC1,
+                                           'Pistache::Async::Impl::When<Pistache::Async::Impl::All>::WhenContinuation<int, 0, std::shared_ptr<Data>>': WC1}),
+          'stubs': dict(T_ALL['stubs'], **{'Pistache::Async::Impl::When::makeContinuation': {'expr': '((struct vs_whencont){ ($0) })'},
+                                           'Pistache::Async::Promise::then': {'expr': 'vs_when_then($this, $0, $1)'},
+                                           'Pistache::Async::Promise::resolved': 'vs_promise_resolved'})}
+FUNCTIONS += [
+    dict({'q': 'Pistache::Async::Impl::When::when', 'sig_exact': 'void (const std::shared_ptr<Data> &, Promise<int> &)', 'targs': [1, 'std::shared_ptr<Data>', 'int'], 'c': 'When_All_when_promise',
+          'contract': """
+        requires FRESH(this, sizeof(*this)) && FRESH(data, sizeof(*data)) && FRESH(*data, sizeof(**data)) && FRESH(promise, sizeof(*promise)) && FRESH(promise->core_, sizeof(*promise->core_))
+        requires vs_exc == 0 && g_then_calls == 0
+        assigns vs_exc, g_then_calls, g_then_state, g_then_cont_data, g_then_lam_data, g_then_promise
+        # an input promise gets exactly one continuation pair attached, both halves bound to THIS combinator's bookkeeping
+        ensures g_then_calls == 1 && g_then_promise == promise && g_then_cont_data == *data && g_then_lam_data == *data"""}, **T_WHEN),
+    dict({'q': 'Pistache::Async::Impl::When::when', 'sig_exact': 'void (const std::shared_ptr<Data> &, int &&)', 'c': 'When_All_when_value',
+          'contract': """
+        requires FRESH(this, sizeof(*this)) && FRESH(data, sizeof(*data)) && FRESH(*data, sizeof(**data)) && FRESH(arg, sizeof(*arg))
+        requires vs_exc == 0 && g_then_calls == 0 && g_resolved_calls == 0
+        assigns vs_exc, g_then_calls, g_then_state, g_then_cont_data, g_then_lam_data, g_then_promise, g_resolved_calls, g_resolved_val, vs_tmp_core
+        # C11 (all-of / any-of over mixed arguments): a plain value counts as an input that has ALREADY fulfilled with that value -- it
+        # goes through the same attachment as a promise (so it is counted, stored at its argument position and can complete the all-of)
+        ensures vs_exc == 0 ==> (g_resolved_calls == 1 && g_resolved_val == *arg && g_then_calls == 1 && g_then_state == ST_FULFILLED && g_then_cont_data == *data && g_then_lam_data == *data)"""}, **T_WHEN),
+]
 # ---- composition lemmas over the CONTRACTS (both callees replaced by their contracts): the two orders of attach and settle.  They
 # mechanise the smallest instances of the composition that the MANIFEST otherwise only states: a continuation attached before or after
 # settlement runs exactly once, and a second settlement runs nothing.
@@ -597,6 +638,8 @@ LEMMA_PRE = r"""
 """
 RESET = "g_k_res = 0; g_k_rej = 0; g_res_calls = 0; g_rej_calls = 0; g_constructs = 0; g_pushed = 0;"
 PROOFS += [
+    {'name': 'When_attach_promise', 'enforce': 'When_All_when_promise', 'props': ['C11']},
+    {'name': 'When_attach_value', 'enforce': 'When_All_when_value', 'props': ['C11']},
     {'name': 'lemma_attach_then_settle', 'enforce': None, 'lemma': 'lemma_attach_then_settle', 'replace': ['Promise_int_then_AddOne', 'Resolver_call_int'], 'props': ['C11'],
      'harness': r"""
 void lemma_attach_then_settle(void)
